@@ -133,6 +133,25 @@ Theorem C18_sample_linear_monotone : forall freq cdf x x' v v', length freq = le
 Proof. exact sample_linear_monotone_lemma. Qed.
 Print Assumptions C18_sample_linear_monotone.
 
+(* masked spectrum: the cumulative table built by the constructor (weights w of the masked bins, all >= 0, not all of the
+   first n-1 zero) starts at 0, ends at 1 and is non-decreasing; hence every random number in (0, 1] gives a frequency
+   inside the bins *)
+Theorem C18_sample_masked_in_range : forall freq w x, length freq = length w -> (2 <= length w)%nat ->
+  Rsorted freq -> (forall i, (i < length w)%nat -> 0 <= nth i w 0) ->
+  0 < nth (length w - 1) (masked_running Rops 0 w) 0 -> 0 < x <= 1 ->
+  nth 0 (masked_cdf Rops w) 0 = 0 /\ nth (length w - 1) (masked_cdf Rops w) 0 = 1 /\ Rsorted (masked_cdf Rops w) /\
+  exists v, sample_linear Rops freq (masked_cdf Rops w) x = Some v /\ nth 0 freq 0 <= v <= nth (length freq - 1) freq 0.
+Proof. exact sample_masked_range_lemma. Qed.
+Print Assumptions C18_sample_masked_in_range.
+
+(* ... which is false of the construction of the pinned commit (entry i of the table included bin i itself, so the table
+   started at the weight of the first bin and smaller random numbers were extrapolated below the first bin); repaired in /repo *)
+Theorem C18_sample_masked_inclusive_table_refuted : exists freq w x v, length freq = length w /\ (2 <= length w)%nat /\
+  Rsorted freq /\ (forall i, (i < length w)%nat -> 0 <= nth i w 0) /\ 0 < x <= 1 /\
+  sample_linear Rops freq (masked_cdf_incl Rops w) x = Some v /\ v < nth 0 freq 0.
+Proof. exact sample_masked_incl_refuted_lemma. Qed.
+Print Assumptions C18_sample_masked_inclusive_table_refuted.
+
 (* Planck: log-log interpolation with the 1e-10 floor of the first bin *)
 Theorem C18_sample_planck_in_range : forall cdf logcdf logfreq x, planck_tables cdf logcdf ->
   length logfreq = length cdf -> (2 <= length cdf)%nat -> Rsorted logfreq ->
